@@ -1173,6 +1173,14 @@ impl World {
         for b in bounds {
             if let TypeParamBound::Trait(tb) = b {
                 let seg = tb.path.segments.last()?;
+                if seg.ident == "FnOnce" || seg.ident == "Fn" {
+                    if let PathArguments::Parenthesized(pa) = &seg.arguments {
+                        if pa.inputs.len() != 1 || matches!(&pa.inputs[0], Type::Reference(r) if r.mutability.is_some()) { return None; }
+                        let a = self.ty_of(&pa.inputs[0], generics).ok()?;
+                        let r = match &pa.output { ReturnType::Type(_, t) => self.ty_of(t, generics).ok()?, _ => return None };
+                        return Some(Ty::FnOnce1(Box::new(a), Box::new(r)));
+                    }
+                }
                 if seg.ident != "FnMut" { continue; }
                 if let PathArguments::Parenthesized(pa) = &seg.arguments {
                     if pa.inputs.len() != 1 { return None; }
@@ -1281,10 +1289,19 @@ impl World {
         }
 
         let mut generics: BTreeMap<String, Ty> = BTreeMap::new();
+        // explicit instantiations first (`T=@bytes`): the bounds of later parameters may mention them
         for gp in impl_generics.params.iter().chain(sig.generics.params.iter()) {
             if let GenericParam::Type(tp) = gp {
+                if let Some(inst) = opts.get(&tp.ident.to_string()) {
+                    generics.insert(tp.ident.to_string(), crate::tr::inst_ty(inst));
+                }
+            }
+        }
+        for gp in impl_generics.params.iter().chain(sig.generics.params.iter()) {
+            if let GenericParam::Type(tp) = gp {
+                if generics.contains_key(&tp.ident.to_string()) { continue; }
                 let b = tp.bounds.to_token_stream().to_string();
-                let t = if let Some(ft) = self.fnmut_bound(&tp.bounds, &generics) { ft } else if b.contains("Seek") || b.contains("Read") { Ty::Src } else if b.contains("Write") { Ty::Sink } else if b.replace(' ', "").contains("AsRef<[u8]>") { Ty::Bytes } else { continue };
+                let t = if let Some(ft) = self.fnmut_bound(&tp.bounds, &generics) { ft } else if b.contains("Seek") || b.contains("Read") { Ty::Src } else if b.contains("Write") { Ty::Sink } else if b.replace(' ', "").contains("AsRef<[u8]>") { Ty::Bytes } else if b.contains("RangeBounds") { Ty::Tuple(vec![Ty::Bound(Box::new(Ty::Bytes)), Ty::Bound(Box::new(Ty::Bytes))]) } else { continue };
                 generics.insert(tp.ident.to_string(), t);
             }
         }
@@ -1293,7 +1310,7 @@ impl World {
                 if let WherePredicate::Type(pt) = p {
                     let b = pt.bounds.to_token_stream().to_string();
                     let n = pt.bounded_ty.to_token_stream().to_string();
-                    let t = if let Some(ft) = self.fnmut_bound(&pt.bounds, &generics) { ft } else if b.contains("Seek") || b.contains("Read") { Ty::Src } else if b.contains("Write") { Ty::Sink } else if b.replace(' ', "").contains("AsRef<[u8]>") { Ty::Bytes } else { continue };
+                    let t = if let Some(ft) = self.fnmut_bound(&pt.bounds, &generics) { ft } else if b.contains("Seek") || b.contains("Read") { Ty::Src } else if b.contains("Write") { Ty::Sink } else if b.replace(' ', "").contains("AsRef<[u8]>") { Ty::Bytes } else if b.contains("RangeBounds") { Ty::Tuple(vec![Ty::Bound(Box::new(Ty::Bytes)), Ty::Bound(Box::new(Ty::Bytes))]) } else { continue };
                     generics.insert(n, t);
                 }
             }
